@@ -18,6 +18,14 @@ func (e *Enc) isPurePkg(fn *ssa.Function) bool {
 		e.usedPurePkg[p+": "+r] = true
 		return true
 	}
+	if p == "bytes" && fn.Signature.Recv() == nil {
+		// comparison / search functions of package bytes (not the Buffer / Reader methods)
+		switch fn.Name() {
+		case "Equal", "Compare", "Contains", "HasPrefix", "HasSuffix", "Index", "IndexByte", "LastIndex", "Count", "EqualFold", "ContainsAny", "ContainsRune":
+			e.usedPurePkg["bytes: comparison and search functions read their arguments only"] = true
+			return true
+		}
+	}
 	return false
 }
 
